@@ -84,6 +84,11 @@ THEOREMS = [
      "fits (length (ops1 ++ Reg b t :: ops2)) -> "
      "counted_ops cfg t0 (ops1 ++ [Reg b t]) b <= max_requests (config_after cfg ops1) -> "
      "nth_error (decisions_ops checked cfg t0 (ops1 ++ Reg b t :: ops2)) (length (regs ops1)) = Some (Ok Passed)"),
+    ("isolation_own_traffic_ops",
+     "forall (checked : bool) (cfg : config) (t0 : N) (ops1 : list op) (b t : N) (ops2 : list op), "
+     "fits (length (ops1 ++ Reg b t :: ops2)) -> "
+     "calls_of b (regs (ops1 ++ [Reg b t])) <= max_requests (config_after cfg ops1) -> "
+     "nth_error (decisions_ops checked cfg t0 (ops1 ++ Reg b t :: ops2)) (length (regs ops1)) = Some (Ok Passed)"),
     ("others_never_hurt_ops",
      "forall (checked : bool) (cfg : config) (t0 : N) (ops1 : list op) (b t : N) (ops2 : list op), "
      "fits (length (ops1 ++ Reg b t :: ops2)) -> "
@@ -498,11 +503,6 @@ class PyLimiter:
     def __init__(self, mx, ce, reset):
         self.mx, self.ce, self.reset = mx, ce, _norm_reset(reset)
         self.since, self.start, self.counted = 0, 0, {}
-
-    def clone_with(self, mx, ce, reset):
-        o = PyLimiter(mx, ce, reset)
-        o.shared_from = self
-        return o
 
     def register(self, a, now, cfgof=None):
         c = cfgof or self
